@@ -42,7 +42,8 @@ NUMBERS = [b'0', b'1', b'2', b'10', b'255', b'0.5', b'1.5', b'5.', b'.5', b'.25'
            b'0XFF', b'0x1f.8', b'0x.8', b'0b101', b'0B1', b'0b1.1', b'32767', b'007', b'3.14159']
 STRINGS = [b'""', b'"s"', b"'s'", b'"a b"', b'"it\'s"', b'"\\n"', b'"\\65\\066"', b'"\\0001"', b'"\x8e\x97"',
            b'[[ls]]', b'[=[l]]s]=]', b'"--x"', b'"\\x41"', b'"\\""', b"'\\''", b'"\\\\"', b'"1"', b'[[\nml]]',
-           b'"\\14"', b'"\\*\\^"', b'"x=1"', b'"%d"']
+           b'"\\14"', b'"\\*\\^"', b'"x=1"', b'"%d"', b'[[a \nb\t\n c]]', b'[==[\n x  \n]==]', b'"  lead"', b'" "',
+           b'"tail\\z  "', b'[[#..# \n#..#\t\n]]']
 
 
 class Cfg:
@@ -716,12 +717,13 @@ def line_comment(ch):
     return lead + sp + word
 
 
-def long_comment(ch, multiline_ok):
+def long_comment(ch, multiline_ok, nl=b'\n'):
     body = ch.pick(COMMENT_WORDS[:9])
     if body in (b']]',):
         body = b'c'
     if multiline_ok and ch.chance(90):
-        body = body + b'\n' + ch.pick([b'', b'  ', b'\t']) + ch.pick(COMMENT_WORDS[:4])
+        for _ in range(1 + (ch.below(3) if ch.chance(60) else 0)):
+            body = body + ch.pick([b'', b'', b' ', b'\t']) + nl + ch.pick([b'', b'  ', b'\t']) + ch.pick(COMMENT_WORDS[:4])
     return b'--[[' + body + b']]'
 
 
@@ -839,13 +841,13 @@ def _separator(ch, mode, prev, t, must_nl, no_nl, nl, comments, lay, idx):
         return nl + ch.pick([b'', b'  ']) + nl
     if k == 'linecomment' and ch.chance(60):
         parts = []
-        for _ in range(2 + ch.below(3)):
+        for _ in range(2 + ch.below(3) if ch.chance(200) else 9 + ch.below(6)):
             c = line_comment(ch)
             lay.comments.append((idx, c))
             parts.append(b' ' + c + nl + ch.pick([b'', b'  ', nl]))
         return b''.join(parts)
     if k == 'lcomment':
-        c = long_comment(ch, not no_nl)
+        c = long_comment(ch, not no_nl and nl != b'\r', nl)
         lay.comments.append((idx, c))
         # a long comment directly after '-' would read '---[[' (line comment); keep blanks around it
         return b' ' + c + ch.pick([b'', b' '])
@@ -883,7 +885,7 @@ def _lines_separator(ch, prev, t, need_space, no_nl, nl, comments, lay, idx):
     if k == 'multi':
         # a run of own-line comments separated by blanks and blank lines
         parts = [trail + nl]
-        for _ in range(2 + ch.below(3)):
+        for _ in range(2 + ch.below(3) if ch.chance(200) else 9 + ch.below(6)):
             c = line_comment(ch)
             lay.comments.append((idx, c))
             parts.append(ch.pick([b'', b'  ', b'\t']) + c + nl)
@@ -902,7 +904,7 @@ def _lines_separator(ch, prev, t, need_space, no_nl, nl, comments, lay, idx):
         c = line_comment(ch)
         lay.comments.append((idx, c))
         return b' ' + c + nl + lead
-    c = line_comment(ch) if ch.chance(200) else long_comment(ch, False)
+    c = line_comment(ch) if ch.chance(190) else long_comment(ch, nl != b'\r', nl)
     lay.comments.append((idx, c))
     return trail + nl + ch.pick([b'', b'  ', b'\t']) + c + nl + lead
 
